@@ -93,6 +93,8 @@ def run_codec_tables(R, tonic, tag='', rule='C01.R3'):
                     if ix:
                         rng = strip_refs(ix[0][2][1])
                         okr = rng[0] == 'agg' and rng[1].get('adt', '').endswith('Range') and const_val(rng[2][0]) == 0 and arg_root(rng[2][1]) == len_n and src_n is not None and arg_root(ix[0][2][0]) == src_n
+                        # buf[..len]
+                        okr = okr or (rng[0] == 'agg' and rng[1].get('adt', '').endswith('RangeTo') and len(rng[2]) == 1 and arg_root(rng[2][0]) == len_n and src_n is not None and arg_root(ix[0][2][0]) == src_n)
                     R.check(okr, rule, '%s:%s:reads-0..len%s' % (role, name, tag), site(b, bb), 'codec input = %s' % show(src)[:140])
             R.eq(sorted(table), sorted(enabled), rule, '%s:arms%s' % (role, tag), site(b), 'arms of %s under features %s' % (fname, sorted(feats & {'gzip', 'deflate', 'zstd'})))
             # advance(len) exactly once, on the success path only
